@@ -30,12 +30,13 @@ type Case struct {
 	Yield   []int   `json:"yield"`   // per goroutine (readers first)
 	Procs   int     `json:"procs"`
 	Repeat  int     `json:"repeat"`
+	Partial int     `json:"partial,omitempty"` // single samples appended to the shared buffer before the goroutines start (a partial last frame), < C
 }
 
 var Types = []string{"int8", "uint16", "int32", "int64", "float32", "float64"}
 
 const (
-	nReadOps  = 10
+	nReadOps  = 11
 	nWriteOps = 6
 )
 
@@ -102,6 +103,13 @@ func readStep(c *Case, shared kit.AnyBuf, code, r, k int) string {
 			return "empty"
 		}
 		return v.Get(k % v.Len()).String()
+	case 9: // striped read straight from the shared header, rows confined to the read-only frames
+		lens := make([]int, C)
+		for i := range lens {
+			lens[i] = kit.Max(c.RO-(i+k)%2, 0)
+		}
+		out, n := shared.ReadStripedVals(lens)
+		return fmt.Sprint(out, n)
 	default: // short interleaved read straight from the shared header (only read-only positions are touched)
 		out, n := shared.ReadVals(kit.Min(c.C*c.RO, 1+k%5))
 		return fmt.Sprint(out, n)
@@ -164,7 +172,7 @@ func valid(c *Case) bool {
 	}
 	if !okT || c.C < 1 || c.C > 8 || c.F < 0 || c.F > 1<<17 || c.RO < 0 || c.RO > c.F || len(c.Bounds) != len(c.Writers)+1 ||
 		len(c.Readers)+len(c.Writers) > 16 || len(c.Readers)+len(c.Writers) < 1 || len(c.Yield) != len(c.Readers)+len(c.Writers) ||
-		c.Procs < 1 || c.Procs > 64 || c.Repeat < 1 || c.Repeat > 50 {
+		c.Procs < 1 || c.Procs > 64 || c.Repeat < 1 || c.Repeat > 50 || c.Partial < 0 || c.Partial >= c.C {
 		return false
 	}
 	prev := c.RO
@@ -188,9 +196,16 @@ func valid(c *Case) bool {
 }
 
 func fill(c *Case) kit.AnyBuf {
-	b := kit.AllocAny(c.T, signal.Allocator{Channels: c.C, Length: c.F, Capacity: c.F})
+	spare := 0
+	if c.Partial > 0 {
+		spare = 1
+	}
+	b := kit.AllocAny(c.T, signal.Allocator{Channels: c.C, Length: c.F, Capacity: c.F + spare})
 	for i := 0; i < b.Len(); i++ {
 		b.Set(i, kit.IV(int64(1+i%100)))
+	}
+	for k := 0; k < c.Partial; k++ {
+		b.AppendSample(kit.IV(int64(101 + k)))
 	}
 	return b
 }
@@ -304,7 +319,7 @@ func Check(c *Case) (res kit.Result) {
 func FP(c *Case) uint64 {
 	h := kit.NewHasher()
 	h.Str(c.T)
-	h.Ints([]int{c.C, c.F, c.RO, c.Procs, c.Repeat})
+	h.Ints([]int{c.C, c.F, c.RO, c.Procs, c.Repeat, c.Partial})
 	h.Ints(c.Bounds)
 	h.Ints(c.Yield)
 	for _, s := range c.Readers {
@@ -351,6 +366,9 @@ func Gen(t *rapid.T) *Case {
 	}
 	c.Procs = rapid.SampledFrom([]int{1, 2, 4, 8, 16}).Draw(t, "procs")
 	c.Repeat = 1
+	if c.C >= 2 && rapid.IntRange(0, 2).Draw(t, "partialSel") == 0 {
+		c.Partial = rapid.IntRange(1, c.C-1).Draw(t, "partial")
+	}
 	return c
 }
 
